@@ -800,7 +800,7 @@ func TryRecv(v reflect.Value) (reflect.Value, bool) {
 	}
 	t := hook(pending{kind: opSelect, label: "tryrecv", ops: []Op{{Send: false, Ch: v.Interface()}}, hasDefault: true})
 	if t.op.result < 0 {
-		return reflect.Zero(v.Type().Elem()), false
+		return reflect.Value{}, false // like reflect: the zero Value when the receive cannot finish without blocking
 	}
 	x, ok := v.Recv() // established ready by the scheduler (a parked unbuffered sender was granted with it)
 	return x, ok
